@@ -1,6 +1,8 @@
 package main
 
 import (
+	"os"
+	"runtime/debug"
 	"context"
 	"database/sql"
 	"encoding/hex"
@@ -317,6 +319,7 @@ func runStep(ctx context.Context, s *step, st *runState) (r stepResult) {
 	defer func() {
 		if p := recover(); p != nil {
 			r.Panic = fmt.Sprint(p)
+			fmt.Fprintf(os.Stderr, "STEP-PANIC %s %q: %v\n%s\n", s.Op, s.SQL, p, debug.Stack())
 		}
 	}()
 	fail := func(err error) stepResult {
